@@ -549,7 +549,14 @@ def run(ctx: core.Ctx) -> core.Report:
     res["violations"] += resb["violations"]
     # built-in transports: same scenario through the real TCP/serial/MQTT classes (quick: at most 1 early firing)
     K2 = 1 if ctx.quick else 3
-    res2 = explore.explore(ctx, MOD, [c for c in cfgs if c["transport"] != "script"], K2)
+    res2 = explore.explore(ctx, MOD, [c for c in cfgs if c["transport"] != "script" and not (c["transport"] == "mqtt" and c.get("cancel_entry"))], K2)
+    # MQTT connect = broker handshake + five subscriptions in flight at once: the cancellation may land between any two of
+    # them; quick explores all orders at quiescent points, thorough one early firing as well
+    res3 = explore.explore(ctx, MOD, [c for c in cfgs if c["transport"] == "mqtt" and c.get("cancel_entry")], 0 if ctx.quick else 1)
+    for k in ("executions", "nontrivial", "hangs"):
+        res2[k] += res3[k]
+    res2["distinct_outcomes"] += res3["distinct_outcomes"]
+    res2["violations"] += res3["violations"]
     for k in ("executions", "nontrivial", "hangs"):
         res[k] += res2[k]
     res["distinct_outcomes"] += res2["distinct_outcomes"]
